@@ -77,6 +77,10 @@ def _(ir: IntegralIR) -> KernelTensorSizes:
         for constant in ir.expression.original_constant_offsets.keys()
     )
     coords = ir.expression.number_coordinate_dofs * 3
+    if ir.expression.integral_type == "interior_facet":
+        # Macro cell: coefficient and coordinate dofs of both cells
+        w *= 2
+        coords *= 2
     local_index = 2  # TODO: this is just an upper bound, harmful?
     permutation = 2 if ir.expression.needs_facet_permutations else 0
 
